@@ -83,6 +83,10 @@ impl Table {
         }
 
         let cache_partition_id = (*options.block_cache()).new_id();
+        #[cfg(raindb_verif)]
+        crate::verif::event(options.db_path(), "TableOpen", |_| {
+            vec![("id", crate::verif::Val::U(cache_partition_id))]
+        });
 
         log::debug!("Reading and parsing the table file footer");
         let mut footer_buf: Vec<u8> = vec![0; SIZE_OF_FOOTER_BYTES];
